@@ -76,6 +76,16 @@ pub fn record(a: &HashMap<String, String>) -> i32 {
     let out = a.get("out").expect("--out");
     let mut rng = Rng::new(seed ^ 0xC077);
     let mut f = std::io::BufWriter::new(std::fs::File::create(out).expect("create"));
+    // boundary models: K templates that all carry one feature pair with one cost, chosen so that the
+    // pre-summed part of the dual connector (K - 8 templates, whichever they are) is exactly the
+    // smallest / close to the largest 16-bit value - it FITS, so raw and dual must agree
+    for (k, v) in [(16usize, -4096i32), (16, 4095), (9, -32768), (9, 32767), (10, -16384), (10, 16383)] {
+        let model = ABigram { right: vec![vec!["A".to_string(); k]], left: vec![vec!["a".to_string(); k]],
+                              cost: vec![("A".to_string(), "a".to_string(), v), ("".to_string(), "a".to_string(), 3), ("A".to_string(), "".to_string(), -2)] };
+        for dual in [false, true] {
+            writeln!(f, "{}", conn_event(&model, dual)).unwrap();
+        }
+    }
     for i in 0..n {
         let nr = 1 + rng.below(6);
         let nl = 1 + rng.below(6);
